@@ -1,6 +1,7 @@
 import Lean.Data.Json
 import LogicaModel.Escape
 import LogicaModel.TypeAlg
+import LogicaModel.OrderLimit
 /-! Request handlers of the line-protocol driver (executable definitions of the models only). -/
 open Lean
 
@@ -104,10 +105,39 @@ def handleTypeAlg (op : String) (j : Json) : Except String Json := do
     return Json.mkObj [("m", tyToJson (TypeAlg.meet (TypeAlg.meet a b) c))]
   | _ => throw ("unknown op " ++ op)
 
+/-! ### OrderLimit -/
+def optInt (j : Json) (k : String) : Option Int :=
+  match j.getObjVal? k with
+  | .ok (.num n) => if n.exponent == 0 then some n.mantissa else none
+  | _ => none
+
+def handleOrderLimit (op : String) (j : Json) : Except String Json := do
+  match op with
+  | "clauses" =>
+    let ob : Option (List String) :=
+      match j.getObjValAs? (Array String) "order_by" with
+      | .ok a => some a.toList
+      | .error _ => none
+    let lim := optInt j "limit"
+    let g := (j.getObjValAs? Bool "ground").toOption.getD false
+    let n := (j.getObjValAs? Bool "noinject").toOption.getD false
+    let w := (j.getObjValAs? Bool "with").toOption.getD false
+    return Json.mkObj [("order_by", OrderLimit.orderByClause ob), ("limit", OrderLimit.limitClause lim),
+                       ("ok_injection", OrderLimit.okInjection ob lim g n w)]
+  | "eval_ordered" =>
+    let rows ← j.getObjValAs? (Array (Array Int)) "rows"
+    let keys ← j.getObjValAs? (Array (Array Int)) "keys"
+    let ks : List OrderLimit.Key := keys.toList.map fun a => ⟨(a.getD 0 0).toNat, a.getD 1 0 != 0⟩
+    let lim := optInt j "limit"
+    let out := OrderLimit.evalOrdered (OrderLimit.lexLe ks) lim (rows.toList.map Array.toList)
+    return Json.mkObj [("rows", toJson out)]
+  | _ => throw ("unknown op " ++ op)
+
 def handle (j : Json) : Except String Json := do
   let op ← str j "op"
   if ["strlit", "lex", "useflags", "buildflags"].contains op then handleEscape op j
   else if ["meet", "meet3"].contains op then handleTypeAlg op j
+  else if ["clauses", "eval_ordered"].contains op then handleOrderLimit op j
   else throw ("unknown op " ++ op)
 
 end Logica.Ops
